@@ -157,6 +157,19 @@ func c15One(e *core.Env, drv *core.Driver, cs c15Case, explore bool) (string, st
 		}
 	}, func(c *core.Ctx) bool { return key == "" && len(outcomes) < 2 })
 	if key == "" {
+		// the result is laid out like a formatted file ("the column alignment they imply"):
+		// formatting it again changes nothing
+		std0 := drv.Run(nil, args...)
+		if std0.Exit == 0 {
+			drv.Files(map[string]string{"train.knut": cs.Training, "target.knut": cs.Target, "again.knut": std0.Stdout})
+			if f2 := drv.Run(nil, "format", "again.knut"); f2.Exit == 0 {
+				if got, _ := drv.ReadFile("again.knut"); got != std0.Stdout {
+					key, detail = "C15:result-not-in-formatted-layout", fmt.Sprintf("formatting the result of infer changes it\ninfer:\n%s\nformatted again:\n%s", std0.Stdout, got)
+				}
+			}
+		}
+	}
+	if key == "" {
 		// --inplace must leave exactly what the stdout mode prints
 		std := drv.Run(nil, args...)
 		drv.Files(map[string]string{"train.knut": cs.Training, "target.knut": cs.Target, "inplace.knut": cs.Target})
@@ -190,6 +203,8 @@ func c15Training(ph string) []string {
 		jr.T("2020-01-05", "refund shop", jr.B("Expenses:Food", "Assets:A", "10", "CHF")),
 		jr.T("2020-01-06", "unknown", jr.B("Assets:A", ph, "10", "CHF")),
 		jr.T("2020-01-07", "macro", jr.B("$m", "Expenses:Food", "1", "CHF")),
+		// a candidate that is the widest account of the result in bytes but not in characters
+		jr.T("2020-01-08", "two", jr.B("Assets:A", "Expenses:Cafés:Zürich", "2.50", "CHF")),
 	}
 	var res []string
 	// every multiset of <= 3 transactions (combinations with repetition, in order)
